@@ -18,7 +18,8 @@
 (* assigns a width-independent result only to programs whose behaviour is  *)
 (* the same under AldorSem (64-bit wrap) and AldorSemW32 (32-bit wrap).    *)
 (* Expect carries both behaviours; a program is a member of the family iff *)
-(* they are equal and the program terminates (normally or by halting).     *)
+(* they are equal and the program terminates (normally, by halting, or by   *)
+(* an exception nobody handles).                                            *)
 (* Runs of programs outside the family are not judged.                     *)
 (*                                                                         *)
 (*   want : Prog -> Observation   the specification's behaviour (members)  *)
@@ -37,7 +38,7 @@ CONSTANTS Levels,       \* optimisation levels the property quantifies over, {1,
 VARIABLES want, out, ran, hist, bad, closed
 jvars == <<seen, want, out, ran, hist, bad, closed>>
 
-Terminating == {"done", "halt"}
+Terminating == {"done", "halt", "uncaught"}
 Cls(status) == IF status = "done" THEN 0 ELSE 1           \* exit class the language assigns
 
 (* b64, b32: [status, digest] under the two machine-integer widths *)
